@@ -157,7 +157,8 @@ def retry_undischarged(reps, timeout_ms, limit=8):
     done = {}
     for rep in reps:
         for oi, d in enumerate(rep.summary or []):
-            if d['verdict'] == 'unknown':
+            weak = d['verdict'] == 'candidate' and ('quantifier-free part' in d['backend'] or 'contradicts' in d['backend'])
+            if d['verdict'] == 'unknown' or weak:
                 if d['name'] not in done:
                     if len(done) >= limit:
                         continue
@@ -169,7 +170,8 @@ def retry_undischarged(reps, timeout_ms, limit=8):
     # instances of a name whose retried representative was discharged are retried as well
     for rep in reps:
         for oi, d in enumerate(rep.summary or []):
-            if d['verdict'] == 'unknown' and done.get(d['name']) == 'discharged':
+            weak = d['verdict'] == 'candidate' and ('quantifier-free part' in d['backend'] or 'contradicts' in d['backend'])
+            if (d['verdict'] == 'unknown' or weak) and done.get(d['name']) == 'discharged':
                 v, b, dt, model = check_obligation(rep.obligations[oi], timeout_ms)
                 if v == 'discharged':
                     d.update(verdict=v, backend=b + '(retry)', t=round(d['t'] + dt, 3))
